@@ -56,9 +56,11 @@ def run(b, ps, tier, seed):
             if sum(len(p) for p in preds) > 0 and len(labels) > 1:
                 nontrivial_orders += 1
             for cfg, r in d.impl[i].items():
-                if cfg[0] != m or r["panic"]:
+                if cfg[0] != m:
                     continue
-                order_checked += 1
+                if r["panic"] and d.model[i][m]["0"]["tag"] != "RAN":
+                    continue            # the model's run dies too: C01's business
+                order_checked += 1      # a run that dies where the model's does not prints a multiset the semantics does not admit
 
                 def bad(res, labels=labels, preds=preds):
                     return not R.is_linear_extension(res["prints"], labels, preds)
